@@ -50,5 +50,6 @@ package dlog
 // Raw prints the message: uncoloured as is, or coloured such that the plain
 // projection of what is printed equals the message.
 //@ func (*DLog).Raw
-//@   assigns nothing
+//@   assigns g_printedStr
+//@   effect g_printedStr == old(g_printedStr) + message
 //@   ensures [returns-message] result == message
